@@ -199,6 +199,18 @@ _ADD6 = {
  "C18": "; a shared function that panics, followed by later calls with the same key (Do, DoEx, ResourceManager.Get): each executes afresh",
  "C19": "; a foreign file sharing the prefix together with a backup limit",
 }
+_ADD7 = {
+ "C01": "; REST handlers that panic (string, error, http.ErrAbortHandler; before writing anything, after a 200/404/500 header, after body bytes): the panic reaches the caller unchanged and each such request is one failure in the breaker's window, judged request by request against the (total-5) > 1.5 x successes rule",
+ "C02": "; handlers setting two values under one header key (both reach the client, in order)",
+ "C03": "; tables registered in two instalments on one router with every request served after each instalment: each answer equals that of a router built with exactly those routes that has served nothing before (routing depends on the routes registered at the time of the request only)",
+ "C04": "; RPC calls carrying both metadata keys with exactly one value empty",
+ "C10": "; callbacks that panic: every subset of three tasks due in one tick panics, every key (of that tick and of later ticks, on 2 and 5 slots) is still handed to the execute function exactly once",
+ "C11": "; bodies returning the package's own sentinel errors (ErrNotFound, a wrapped ErrNotFound, sql.ErrTxDone, context.Canceled): rolled back and handed back like any other error",
+ "C12": "; BITPOS/BITCOUNT with end = -1 for bit 0 and 1 on an all-ones value, a mixed value and an absent key (an explicit end is not the same command as no end)",
+ "C13": "; membership changes of different nodes running at the same time as each other and as lookups (schedule search with data-race-directed points): every lookup returns what some membership reachable by a subset of the changes assigns, the final ring equals the sequentially built one",
+}
+for _k, _v in _ADD7.items():
+    _ADD[_k] = _ADD.get(_k, "") + _v
 for _k, _v in _ADD6.items():
     _ADD[_k] = _ADD.get(_k, "") + _v
 for _k, _v in _ADD5.items():
@@ -209,5 +221,5 @@ for _k, _v in _ADD.items():
     CHECKS[_k]["text"] += _v
 for _k in ("C03", "C09", "C13"):
     CHECKS[_k]["technique"] += "; plus preemption-bounded schedule search (bound 2, thorough 3, happens-before pruning) of the concurrent scenarios on the instrumented real code"
-for _k in ("C01", "C02", "C03", "C06", "C07", "C08", "C09", "C10", "C14", "C15", "C16", "C17", "C18", "C19"):
+for _k in ("C01", "C02", "C03", "C06", "C07", "C08", "C09", "C10", "C13", "C14", "C15", "C16", "C17", "C18", "C19"):
     CHECKS[_k]["technique"] += "; plain memory accesses of the code under test are announced by the instrumenter, unordered conflicting accesses (vector clocks) become scheduling points and the scenario is explored again, so that racy interleavings are executed and judged by the same oracles"
